@@ -72,7 +72,11 @@ def run(prog, chk):
                 elif k == "(%s != -1)" % var or k == "(%s >= 0)" % var:
                     ok_edges.append(b["succ"][0])
             unl = [u for u in callsn(f, "unlink") if q.no_casts(f.r(q.call_args(f, u)[0])) == target]
-            fails = rets(f, 0)
+            # `return false`, and returns of a computed value (`return ::rename(..) == 0;`): a value that can be false without a branch that
+            # could clean up
+            live_ = f.reach([f.entry_pos()])
+            fails = rets(f, 0) + [i for i, n_ in enumerate(f.nodes) if n_["k"] == "ReturnStmt" and n_["c"] and f.node_pos(i) in live_ and
+                                  fin.eval_expr(f, n_["c"][0], {}) is None]
             bad = None
             for e in ok_edges:
                 if e is None:
@@ -85,7 +89,8 @@ def run(prog, chk):
                 chk.bad("C19.a", f, "created-descriptor-not-tested", f.where(c), "the result of the creating open() is not tested")
             elif bad:
                 chk.bad("C19.a", f, "created-file-left-behind", f.where(bad[0]),
-                        "%s created `%s` and a path returns false without unlinking it (a failed operation leaves a new, empty or partial file behind)" % (name, target), f.path_lines(bad[1]))
+                        "%s created `%s` and a path returns %s without unlinking it (a failed operation leaves a new, empty or partial file behind)" % (
+                            name, target, "false" if fin.eval_expr(f, f.nodes[bad[0]]["c"][0], {}) == 0 else "the unbranched result `%s`, which is false when that call fails," % q.no_casts(f.r(f.nodes[bad[0]]["c"][0]))[:40]), f.path_lines(bad[1]))
             else:
                 chk.ok("C19.a", f, "%s: every failure after creating `%s` unlinks it" % (name, target), f.where(c), "MPT from the success edge of open() to `return false`", evals=len(fails) + 1)
     # ------------------------------------------------------------------ b
